@@ -10,6 +10,7 @@ import SodiumModel.Model.Scalar
 import SodiumModel.Model.Scalarmult
 import SodiumModel.Model.LadderRef10
 import SodiumModel.Model.Fe51
+import SodiumModel.Model.Ge25519Ref10
 import SodiumModel.Driver.C06
 import SodiumModel.Driver.C07Ref
 namespace Sodium.Driver.C05
@@ -54,7 +55,11 @@ def mult (n p : Bytes) : Option Bytes := multFe51 n p     -- every call through 
 /-- `crypto_scalarmult_curve25519_base`: the model of `crypto_scalarmult_curve25519_ref10_base`
     (clamp, `ge25519_scalarmult_base`, `edwards_to_montgomery`, `fe25519_tobytes`) over the
     specification field, with the RFC 8032 base-point multiplication of `Spec/Ed25519.lean` -/
-def base : Bytes → Bytes := Sodium.Model.LadderRef10.x25519_ref10_base
+def base : Bytes → Bytes :=
+  Sodium.Model.LadderRef10.base Sodium.Model.LadderRef10.specField fun t =>
+    -- `ge25519_scalarmult_base(&A, t)`: the C-structured model of `Model/Ge25519Ref10.lean` over the specification field
+    let A := Sodium.Model.Ge25519.ge25519_scalarmult_base Sodium.Model.Ge25519.specGe t
+    { X := A.X, Y := A.Y, Z := A.Z, T := A.T }
 
 /-- BLAKE2b-512 / BLAKE2b-256 without key (`crypto_generichash` as called by crypto_kx) -/
 def blake512 : Bytes → Bytes := Blake2b.hash 64 [] [] []
@@ -105,6 +110,31 @@ def geSpec : Model.Scalar.GePrims Ed25519.Point where
   scalarmult_base t := Ed25519.scalarMult (le t) Ed25519.basePoint
   p3_tobytes := Ed25519.encode
 
+/-- the `ge25519_*` primitives as MODELLED in `Model/Ge25519Ref10.lean` (the C-structured group code of
+    ed25519_ref10.c over the specification field): what the `ed.*` operations run -/
+def geRef : Model.Scalar.GePrims (Model.Ge25519.P3 Nat) where
+  is_canonical p := Model.Sign.ge25519_is_canonical p
+  frombytes p := Model.Ge25519.ge25519_frombytes Model.Ge25519.specGe p
+  is_on_curve P := Model.Ge25519.ge25519_is_on_curve Model.Ge25519.specGe P
+  has_small_order P := Model.Ge25519.ge25519_has_small_order Model.Ge25519.specGe P
+  is_on_main_subgroup P := Model.Ge25519.ge25519_is_on_main_subgroup Model.Ge25519.specGe P
+  scalarmult t P := Model.Ge25519.ge25519_scalarmult Model.Ge25519.specGe t P
+  scalarmult_base t := Model.Ge25519.ge25519_scalarmult_base Model.Ge25519.specGe t
+  p3_tobytes := Model.Ge25519.ge25519_p3_tobytes Model.Ge25519.specGe
+
+/-- `crypto_core_ed25519_add` / `_sub` (core_ed25519.c) over the modelled group code:
+      if (ge25519_frombytes(&p_p3, p) != 0 || ge25519_is_on_curve(&p_p3) == 0 ||
+          ge25519_frombytes(&q_p3, q) != 0 || ge25519_is_on_curve(&q_p3) == 0) return -1;
+      ge25519_p3_add / ge25519_p3_sub (&r_p3, &p_p3, &q_p3);  ge25519_p3_tobytes(r, &r_p3);  return 0; -/
+def coreAddSub (sub : Bool) (p q : Bytes) : Option Bytes :=
+  let G := Model.Ge25519.specGe
+  let P := Model.Ge25519.ge25519_frombytes G p
+  if P.1 != 0 || Model.Ge25519.ge25519_is_on_curve G P.2 == 0 then none else
+  let Q := Model.Ge25519.ge25519_frombytes G q
+  if Q.1 != 0 || Model.Ge25519.ge25519_is_on_curve G Q.2 == 0 then none else
+  let R := if sub then Model.Ge25519.ge25519_p3_sub G P.2 Q.2 else Model.Ge25519.ge25519_p3_add G P.2 Q.2
+  some (Model.Ge25519.ge25519_p3_tobytes G R)
+
 def h2cAlg (alg : String) : Int32 :=
   if alg = "256" then Model.Scalar.CORE_H2C_SHA256 else Model.Scalar.CORE_H2C_SHA512
 
@@ -144,17 +174,17 @@ def handle (op : String) (args : List String) : Option String :=
     Sodium.Driver.C06.handle op args
   | "sign.pk_to_curve", [pk] => do some (rcHex (Ed25519.pkToCurve25519 (← ofHex pk)))
   | "sign.sk_to_curve", [sk] => do some s!"0 {toHex (Ed25519.skToCurve25519 sha512 ((← ofHex sk).take 32))}"
-  | "ed.valid", [p] => do some (toString (Model.Scalar.is_valid_point geSpec (← ofHex p)).toInt)
+  | "ed.valid", [p] => do some (toString (Model.Scalar.is_valid_point geRef (← ofHex p)).toInt)
   | "ri.valid", [p] => do some (if Ristretto.isValidPoint (← ofHex p) then "1" else "0")
-  | "ed.add", [p, q] => do some (rcHex (Ed25519.coreAdd (← ofHex p) (← ofHex q)))
-  | "ed.sub", [p, q] => do some (rcHex (Ed25519.coreSub (← ofHex p) (← ofHex q)))
+  | "ed.add", [p, q] => do some (rcHex (coreAddSub false (← ofHex p) (← ofHex q)))
+  | "ed.sub", [p, q] => do some (rcHex (coreAddSub true (← ofHex p) (← ofHex q)))
   | "ri.add", [p, q] => do some (rcHex (Ristretto.coreAdd (← ofHex p) (← ofHex q)))
   | "ri.sub", [p, q] => do some (rcHex (Ristretto.coreSub (← ofHex p) (← ofHex q)))
-  | "ed.scalarmult", [n, p] => do some (rcBuf (Model.Scalar.crypto_scalarmult_ed25519 geSpec [] (← ofHex n) (← ofHex p)))
-  | "ed.scalarmult_noclamp", [n, p] => do some (rcBuf (Model.Scalar.crypto_scalarmult_ed25519_noclamp geSpec [] (← ofHex n) (← ofHex p)))
+  | "ed.scalarmult", [n, p] => do some (rcBuf (Model.Scalar.crypto_scalarmult_ed25519 geRef [] (← ofHex n) (← ofHex p)))
+  | "ed.scalarmult_noclamp", [n, p] => do some (rcBuf (Model.Scalar.crypto_scalarmult_ed25519_noclamp geRef [] (← ofHex n) (← ofHex p)))
   | "ri.scalarmult", [n, p] => do some (rcHex (Ristretto.scalarmult (← ofHex n) (← ofHex p)))
-  | "ed.base", [n] => do some (rcBuf (Model.Scalar.crypto_scalarmult_ed25519_base geSpec (← ofHex n)))
-  | "ed.base_noclamp", [n] => do some (rcBuf (Model.Scalar.crypto_scalarmult_ed25519_base_noclamp geSpec (← ofHex n)))
+  | "ed.base", [n] => do some (rcBuf (Model.Scalar.crypto_scalarmult_ed25519_base geRef (← ofHex n)))
+  | "ed.base_noclamp", [n] => do some (rcBuf (Model.Scalar.crypto_scalarmult_ed25519_base_noclamp geRef (← ofHex n)))
   | "ri.base", [n] => do some (rcHex (Ristretto.scalarmultBase (← ofHex n)))
   | "ed.from_uniform", [r] => do some s!"0 {toHex (H2c.fromUniform (← ofHex r))}"
   | "ri.from_hash", [h] => do some s!"0 {toHex (Ristretto.fromUniform (← ofHex h))}"
@@ -162,7 +192,7 @@ def handle (op : String) (args : List String) : Option String :=
     let ctx ← if ctx = "N" then some [] else ofHex ctx
     let msg ← ofHex msg
     some (rcBuf (if ro = "0" then Model.Scalar.from_string sha256 sha512 H2c.fromHash64 ctx msg (h2cAlg alg)
-      else Model.Scalar.from_string_ro sha256 sha512 H2c.fromHash64 Ed25519.coreAdd ctx msg (h2cAlg alg)))
+      else Model.Scalar.from_string_ro sha256 sha512 H2c.fromHash64 (coreAddSub false) ctx msg (h2cAlg alg)))
   | "ri.from_string", [alg, _ro, ctx, msg] => do
     let ctx ← if ctx = "N" then some [] else ofHex ctx
     let msg ← ofHex msg
